@@ -722,12 +722,15 @@ fn encode_one_d(f: &Fm, img: &Img, chs: Channels, ch: &[usize], p: Prec, pad: us
     } else {
         ImageView::new_with(data, pitch, size, color)?
     };
-    let mut out = Vec::new();
+    // the sink accepts a limited number of bytes per `write` call for most geometries (any conforming `Write` may):
+    // the round trip and the independence clauses must hold through every writer (seed C12j)
+    let max = [usize::MAX, 4096, usize::MAX, 1000, 7, 100][(img.w * 5 + img.h * 3 + pad + off + ch.len() + par as usize) % 6];
+    let mut out = crate::c09::ShortWriter { data: Vec::new(), max };
     let mut opt = EncodeOptions::default();
     opt.dithering = dith;
     opt.parallel = par;
     Some(match encode(&mut out, view, f.fmt, None, &opt) {
-        Ok(()) => Ok(out),
+        Ok(()) => Ok(out.data),
         Err(e) => Err(err_name(&e)),
     })
 }
